@@ -59,7 +59,7 @@ def make_source(frames, n_nodes, edges=None):
     return make_labels(fl, n_nodes=n_nodes, edges=edges)
 
 
-def run_predictor(pred, provider, labels, batch_size, make_labels=False, stream_log=None, queue_maxsize=4):
+def run_predictor(pred, provider, labels, batch_size, make_labels=False, stream_log=None, queue_maxsize=4, video_range=None):
     """Substitute the sio loaders, call the REAL make_pipeline and predict().
     stream_log: a harness.sched.Sched(forced=False); when given, the frame queue is a SchedQueue and frame reads of
     video 0 are logged, so the same run also yields a FrameStream trace (reader/consumer events under the queue mutex)."""
@@ -99,7 +99,10 @@ def run_predictor(pred, provider, labels, batch_size, make_labels=False, stream_
             v.backend = _LogBackend(be)
             restore.append((v, be))
     try:
-        pred.make_pipeline(provider, "mem://source", queue_maxsize=queue_maxsize)
+        if video_range is not None:
+            pred.make_pipeline(provider, "mem://source", queue_maxsize=queue_maxsize, video_start_idx=video_range[0], video_end_idx=video_range[1])
+        else:
+            pred.make_pipeline(provider, "mem://source", queue_maxsize=queue_maxsize)
     finally:
         prov.sio.load_slp, prov.sio.load_video, prov.Queue = old
     pred.pipeline.daemon = True
